@@ -113,7 +113,8 @@ def _run(steps, backend, limit_s, solver, vs, events, touched, limited):
             ev = {"ev": a, "status": "ok", "exc": "", "ret": False}
             if "w" in st:
                 ev["w"] = st["w"]
-            signal.alarm(limit_s)
+            # programs judged by witness are large on purpose: more time, and running out of it says nothing about the answer
+            signal.alarm(limit_s if "w" not in st else max(limit_s, 240))
             try:
                 with warnings.catch_warnings():
                     warnings.simplefilter("ignore")
@@ -123,7 +124,7 @@ def _run(steps, backend, limit_s, solver, vs, events, touched, limited):
                 else:
                     ev["ret"] = r
             except Watchdog:
-                ev["status"], ev["exc"] = "exc", "DidNotTerminate"
+                ev["status"], ev["exc"] = "exc", ("Z3TimeLimit" if "w" in st else "DidNotTerminate")
             except Exception as e:  # noqa
                 ev["status"], ev["exc"] = "exc", type(e).__name__
                 if type(e).__name__ == "Z3Exception" and "model is not available" in str(e):
